@@ -19,6 +19,8 @@ type flowOpts struct {
 	Class     bool     // the error must keep its class where it is returned
 	Through   []string // function keys: passing the error to one of these and returning the result is propagation
 	Sinks     []string // function keys: passing the error (class kept) to one of these is delivery
+	// SinkParams: function-typed parameters whose call with the error is delivery (the yield of an iterator)
+	SinkParams map[types.Object]bool
 	Require   bool     // the error must pass one of Through before it is returned
 	sanitised bool     // (internal) the value already passed one of Through
 	depth     int
@@ -248,6 +250,21 @@ func (f *Flat) consumes(fi *FuncInfo, n *GNode, E types.Object, o flowOpts) (boo
 		}
 	}
 	// sinks
+	if len(o.SinkParams) > 0 {
+		for _, c := range callsIn(n.Ast, false) {
+			if fo := objOf(info, c.Fun); fo != nil && o.SinkParams[fo] {
+				for _, a := range c.Args {
+					if usesObj(info, a, E) {
+						if ok, why := checkExpr(a); ok {
+							return true, "yielded to the consumer: " + why
+						} else {
+							return false, "yielded value: " + why
+						}
+					}
+				}
+			}
+		}
+	}
 	if len(o.Sinks) > 0 {
 		for _, c := range callsIn(n.Ast, false) {
 			if os.Getenv("FSDBCHECK_DEBUG") != "" {
